@@ -262,6 +262,8 @@ def delimiters_stage(tier, rep):
         docs.append("".join(rnd.choice(atoms) for _ in range(rnd.randint(2, 12))))
     l2 = gen.docs("L2", tier, rep)
     docs += gen.sample([d for d in l2 if "*" in d or "_" in d or "~" in d], 6000 if q else 100000, C.SEED + 32)
+    es = gen.emphasis_sentences(rep)
+    docs += gen.sample(es, 12000 if q else len(es), C.SEED + 33)
     cfgs = [gen.cfg_key(c) for c in ({"preset": "commonmark", "on": ["strikethrough"], "off": [], "opts": []},
                                      {"preset": "js-default", "on": [], "off": [], "opts": []})]
     jobs = [(cfgs[k % 2], d) for k, d in enumerate(docs)]
